@@ -1,3 +1,4 @@
+import BigtoolsModel.WriteGenBed
 import BigtoolsModel.AutoSqlNTest
 import BigtoolsModel.AutoSqlTotal
 /-! # C19 — the stored autoSql always matches the data; the schema parser is total
@@ -38,3 +39,13 @@ theorem unterminated_enum_is_an_error_repaired :
   enum_unterminated_repaired
 
 end Props.C19
+
+/-- **Tie to the source: whole buffers reach every destination** (the schema text). The models append whole buffers to the
+    destination. `std::io::Write::write` may accept any non-empty prefix; `write_all` loops until nothing is left
+    (`WA.writeAll_delivers`: for every destination that takes at least one byte per call), a bare `write` delivers the buffer only
+    if the destination takes all of it at once (`WA.write_delivers_iff`). The lists of bare `write` calls in the source files this writer goes through,
+    regenerated from /repo on every run, are empty — so the models' appends are what a short-writing destination receives. -/
+theorem C19_source_buffers_reach_every_destination_whole (s : WA.Sink) (h : 0 < s.take) (bufs : List (List Nat)) :
+    (Gen.wr_bare_write_bigbedwrite = []) ∧ (bufs.foldl WA.writeAll s).data = s.data ++ bufs.flatten ∧
+    (∀ buf, (s.write buf).1.data = s.data ++ buf ↔ buf.length ≤ s.take) :=
+  ⟨WA.gen_no_bare_write_bigbedwrite, WA.writeAll_sequence s h bufs, fun buf => WA.write_delivers_iff s buf⟩
